@@ -4,6 +4,7 @@ import (
 	"encoding/json"
 	"fmt"
 	"os"
+	"sort"
 	"testing"
 
 	"pgregory.net/rapid"
@@ -133,10 +134,7 @@ func TestC10Faults(t *testing.T) {
 		off := rapid.IntRange(0, stride-1).Draw(rt, "offset")
 		st.Count("reference_calls", int64(ref.calls))
 		for g := 1 + off; g <= ref.calls; g += stride {
-			for kind := 0; kind <= C10ConcurrentWrite; kind++ {
-				if kind == C10ConcurrentWrite && !ref.writeCall[g] {
-					continue // only calls that change state can be raced with
-				}
+			for kind := 0; kind < C10ConcurrentWrite; kind++ {
 				c := &c10Case{Part: "single-fault", Script: script, Dist: C10Disturbance{Faults: []C10Fault{{Call: g, Kind: kind}}}}
 				got, err := runC10(script, c.Dist)
 				if err == nil {
@@ -150,6 +148,28 @@ func TestC10Faults(t *testing.T) {
 					}
 					return
 				}
+			}
+		}
+		// concurrent writers: every write of the reference run on one of PKO's own objects is raced once (no stride: there
+		// are few of them, and which one matters - e.g. the package controller's update of the ObjectDeployment)
+		var own []int
+		for g := range ref.ownWrite {
+			own = append(own, g)
+		}
+		sort.Ints(own)
+		for _, g := range own {
+			c := &c10Case{Part: "single-fault", Script: script, Dist: C10Disturbance{Faults: []C10Fault{{Call: g, Kind: C10ConcurrentWrite}}}}
+			got, err := runC10(script, c.Dist)
+			if err == nil {
+				err = checkC10(ref, got)
+			}
+			st.Case(c, true, fmt.Sprintf("kind=%d", C10ConcurrentWrite))
+			if err != nil {
+				st.Report(rt, c, err)
+				if _, isViol := err.(*Violation); isViol && IsKnown(err.(*Violation)) {
+					continue
+				}
+				return
 			}
 		}
 	})
